@@ -164,7 +164,8 @@ class _HyperRectangleGrid(Grid):
             x, y, z = self.get_points_along_axes()
             values = values.reshape(self.shape)
             interpolate = RegularGridInterpolator((x, y, z), values, method=method)
-            return interpolate(points)
+            # with use_log the logarithm was interpolated: return the function itself
+            return np.exp(interpolate(points)) if use_log else interpolate(points)
 
         # Interpolate the Z-Axis.
         def z_spline(z, x_index, y_index, nu_z=nu_z):
